@@ -298,3 +298,19 @@ def collation_string_{n}(de: bool, en_us: bool, it: bool, other: bool) -> bool:
 '''
 for _n, _c in enumerate(COLLATION_STRINGS):
     define(_COLLS.format(n=_n, r=repr(_c).replace("'", '"')), globals())
+
+
+# recorded finding: nesting deeper than the interpreter's recursion limit
+@ob(budget=60, kind='witness', finding='C03-recursion-depth', bound="the sources '(' * 2000 + '1' + ')' * 2000 and '-' * 3000 + '1' (XPath 3.1)",
+    funcs=['elementpath/tdop.py:Parser.expression'])
+def known_recursion_depth(k: int) -> bool:
+    """
+    pre: k == 1
+    post: _
+    """
+    for src in ('(' * 2000 + '1' + ')' * 2000, '-' * 3000 + '1'):
+        try:
+            XPath31Parser().parse(src)
+        except ElementPathError:
+            pass
+    return True
